@@ -116,6 +116,9 @@ func vfGenRecordGrammar(r *rand.Rand, n int, cid []byte, seqBase uint64, thoroug
 	for _, ep := range []uint16{0xffff, 0x8000, 300} {
 		out = append(out, vfHostile{Data: vfLegacyRecord(uint8(20+r.IntN(4)), 0xfefd, ep, seqBase+uint64(ep), nil, -1, []byte{1}), Class: "?", Note: fmt.Sprintf("far-future-epoch-%d", ep)})
 	}
+	// always present: an unprotected alert whose body does not decode (an invalid record in every state)
+	out = append(out,
+		vfHostile{Data: vfLegacyRecord(21, 0xfefd, 0, seqBase+900, nil, -1, []byte{2, 40, 0}), Class: "?", Note: "epoch0-alert-3-byte-body"})
 	cts := []uint8{0, 19, 20, 21, 22, 23, 24, 25, 26, 27, 28, 64, 99, 255}
 	for len(out) < n {
 		ct := cts[r.IntN(len(cts))]
@@ -354,6 +357,16 @@ func vfGenTruncatedMessages(d []byte, cidLen int, step int) []vfHostile {
 // vfClassify fills in "?" classes: unparseable per the library's own functions, protected-only
 // datagrams (every record non-zero epoch / unified, none of type change_cipher_spec) as failedauth
 // (the caller guarantees they are not authentic), everything else plaintext.
+func vfAllEpoch0NonHandshake(recs []vfRec) bool {
+	for _, rc := range recs {
+		if rc.Unified || rc.Epoch != 0 || rc.Type == 22 || rc.Type == 20 {
+			return false
+		}
+	}
+
+	return true
+}
+
 func vfClassify(hs []vfHostile, is13 bool, cidLen int) {
 	for i := range hs {
 		if hs[i].Class != "?" {
@@ -374,9 +387,21 @@ func vfClassify(hs []vfHostile, is13 bool, cidLen int) {
 				prot = false
 			}
 		}
-		if prot {
+		switch {
+		case prot:
 			hs[i].Class = "failedauth"
-		} else {
+		case ok && len(recs) > 0 && vfAllEpoch0NonHandshake(recs):
+			// unprotected alerts, application data, ACKs, unknown types: nothing authenticates them. If their content
+			// does not even decode they are invalid records (class unparseable-content, discardable in every state);
+			// well-formed ones are discardable once the association is protected (established connections), while
+			// during the handshake a plaintext alert may legitimately end it.
+			hs[i].Class = "plaintext-nonhandshake"
+			for _, rc := range recs {
+				if (&recordlayer.RecordLayer{}).Unmarshal(rc.Raw) != nil {
+					hs[i].Class = "unparseable-content"
+				}
+			}
+		default:
 			hs[i].Class = "plaintext"
 		}
 	}
